@@ -219,6 +219,18 @@ def dist_m(var) -> float:
     return float(var.value) * D_UNITS[str(var.unit)]
 
 
+def _downstream(seq, target):
+    """propagate_to(target), but never upstream: the package converts the target into the unit of the
+    frame; when that conversion lands an ulp *below* the frame's own distance (a frame at
+    110.00000000000001 cm -- a chopper's 1.1 m in the frame's unit -- and a target of 110.0 cm: the same
+    place), the frame would be propagated backwards by 1e-14 cm, which turns exact ties of degenerate
+    subframes into irregular ones (thorough run, seed 5).  Frames are only ever propagated downstream."""
+    fd = seq[-1].distance
+    if (target.to(unit=fd.unit, dtype="float64") < fd.to(dtype="float64")).value:
+        target = fd.to(dtype="float64")
+    return seq.propagate_to(target)
+
+
 def run_program(case, b):
     import scipp as sc
 
@@ -246,14 +258,14 @@ def run_program(case, b):
                         cm = cand
                         break
             if cm is not None:
-                seq = seq.propagate_to(sc.scalar(cm * (10 if pu == "mm" else 1), unit=pu, dtype="int64"))
+                seq = _downstream(seq, sc.scalar(cm * (10 if pu == "mm" else 1), unit=pu, dtype="int64"))
             else:
                 target = sc.scalar(d / D_UNITS[pu], unit=pu)
                 here = dist_m(seq[-1].distance)
                 if dist_m(target) < here:
                     # the division moved the target an ulp upstream of the frame: stay downstream
                     target = sc.scalar(max(d, here), unit="m")
-                seq = seq.propagate_to(target)
+                seq = _downstream(seq, target)
                 if k + 1 < len(ops) and ops[k + 1]["op"] == "chop" and pu != "m":
                     # unit rounding again: redo in metres if the division moved the frame beyond the chopper
                     if dist_m(seq[-1].distance) > min(b.spec[i][0] for i in ops[k + 1]["choppers"]):
